@@ -460,6 +460,122 @@ def _same_arg(a, b):
     return a == b
 
 
+GEO_ATTRS = {"_vertices", "_centroid", "_radius", "_a", "_b", "_c", "_normal", "_faces"}
+
+
+class _TracedArray(np.ndarray):
+    """ndarray view that reports in-place writes (the tracer below owns the flag)."""
+    _flag = None
+
+    def _hit(self):
+        if _TracedArray._flag is not None:
+            _TracedArray._flag["written"] = True
+
+    def __iadd__(self, o):
+        self._hit()
+        return np.ndarray.__iadd__(self, o)
+
+    def __isub__(self, o):
+        self._hit()
+        return np.ndarray.__isub__(self, o)
+
+    def __imul__(self, o):
+        self._hit()
+        return np.ndarray.__imul__(self, o)
+
+    def __itruediv__(self, o):
+        self._hit()
+        return np.ndarray.__itruediv__(self, o)
+
+    def __setitem__(self, k, v):
+        self._hit()
+        return np.ndarray.__setitem__(self, k, v)
+
+
+def moves_the_shape(world, obj, st):
+    """Does this operation *internally move the shape and move it back*?  Decided on a
+    throw-away deep copy whose geometry attributes are traced: any assignment to, or
+    in-place write into, the stored geometry (of the shape or of its inner core) during the
+    call marks the operation as a mover - for those the property allows last-digit
+    rounding; for all others it allows nothing."""
+    flag = {"written": False}
+    try:
+        with world.step(0, 3, use_fs=False):
+            clone = copy.deepcopy(obj)
+
+        def trace(o):
+            for name in ("_vertices", "_centroid"):
+                a = o.__dict__.get(name)
+                if isinstance(a, np.ndarray) and a.dtype.kind == "f":
+                    o.__dict__[name] = a.view(_TracedArray)
+            cls = type(o)
+
+            def _setattr(self_, k, v, _cls=cls):
+                if k in GEO_ATTRS:
+                    flag["written"] = True
+                object.__setattr__(self_, k, v)
+
+            o.__class__ = type(cls.__name__, (cls,), {"__setattr__": _setattr})
+            for inner in ("_polyhedron", "_polygon"):
+                if inner in o.__dict__ and observe.is_shape(o.__dict__[inner]):
+                    trace(o.__dict__[inner])
+
+        trace(clone)
+        fn, _w = build_call(clone, st)
+        _TracedArray._flag = flag
+        with world.step(st["pyseed"], st["npseed"], use_fs=True,
+                        solver_script=st.get("solver_script")):
+            try:
+                with warnings.catch_warnings():
+                    warnings.simplefilter("ignore")
+                    fn()
+            except Exception as e:  # noqa: BLE001 - only the writes matter
+                if type(e).__name__ == "HarnessTimeout":
+                    raise
+        world.fs.open_handles.clear()
+    except Exception as e:  # noqa: BLE001 - cannot tell: assume it may move (lenient side)
+        if type(e).__name__ == "HarnessTimeout":
+            raise
+        return True
+    finally:
+        _TracedArray._flag = None
+    return bool(flag["written"])
+
+
+def shaky_observables(world, obj, base, probes):
+    """Observables on which two reference models that differ only in the last bits disagree
+    among themselves: ill-conditioned in this state (arccos at +-1 between nearly coplanar
+    neighbours, borderline existence tests); not evidence of anything."""
+    if not hasattr(obj, "vertices"):
+        return set()
+    try:
+        tracked = {"faces_are_convex": (base or {}).get("faces_are_convex", True)}
+        with world.step(9, 9, use_fs=False):
+            m1 = observe.snapshot(history.fresh(obj, tracked), probes)
+            m2 = observe.snapshot(history.jittered(obj, tracked), probes)
+        return {k for k, _w in observe.diff_unchanged(m1, m2, nbase=probes["n_base"])}
+    except Exception as e:  # noqa: BLE001 - no model, no excuse
+        if type(e).__name__ == "HarnessTimeout":
+            raise
+        return set()
+
+
+def _excused(world, obj, base, probes, st, why):
+    """A differing answer is excused when the differing part is an observable that is
+    ill-conditioned in this state (or depends on one: volume and curvature of a rounded
+    shape depend on the core's mean curvature)."""
+    shaky = shaky_observables(world, obj, base, probes)
+    if not shaky:
+        return False
+    field = why.split(":")[0].strip().split(".")[-1].split("[")[0].strip("'\" ")
+    DEPENDS = {"volume": {"mean_curvature"}, "surface_area": {"mean_curvature"},
+               "asphericity": {"mean_curvature"}, "tau": {"mean_curvature"},
+               "iq": set()}
+    names = {field, st["name"]} | DEPENDS.get(field, set())
+    inner = {k.split(".")[-1] for k in shaky}
+    return bool(names & (shaky | inner))
+
+
 def _canon_seeded(world, value):
     """Canonical form of a returned value.  A returned *shape* is canonicalised by reading
     its properties, some of which call the solver: both sides of a comparison are read
@@ -631,25 +747,18 @@ def execute(spec, world):
         snap1, skip1 = observe_clone(world, obj, probes)
         d = observe.diff_unchanged(snap_prev, snap1, nbase=probes["n_base"],
                                    skip=skip_prev | skip1 | skip_q)
+        ref_snap = snap_prev
         if not d:
             # drift since the start: one allowance of last-digit rounding per operation
             d = observe.diff_unchanged(snap0, snap1, nbase=probes["n_base"],
                                        skip=skip0 | skip1 | skip_q, ops=si - k0 + 1)
-        if d and not observe.geometry_bitwise_same(snap_prev, snap1) and \
+            ref_snap = snap0
+        if d and not observe.geometry_bitwise_same(ref_snap, snap1) and \
                 hasattr(obj, "vertices"):
             # the operation moved the shape and moved it back (geometry changed in the last
             # digits, which the property allows): an observable that amplifies last-digit
-            # noise - arccos at +-1 between nearly coplanar neighbours, borderline existence
-            # tests - is not evidence of a side effect.  Conditioning guard as in C03: two
-            # reference models that differ in the last bits must agree on it themselves.
-            try:
-                tracked = {"faces_are_convex": (base or {}).get("faces_are_convex", True)}
-                with world.step(9, 9, use_fs=False):
-                    m1 = observe.snapshot(history.fresh(obj, tracked), probes)
-                    m2 = observe.snapshot(history.jittered(obj, tracked), probes)
-                shaky = {k for k, _w in observe.diff_unchanged(m1, m2, nbase=probes["n_base"])}
-            except Exception:  # noqa: BLE001 - no model, no excuse
-                shaky = set()
+            # noise is not evidence of a side effect (conditioning guard as in C03)
+            shaky = shaky_observables(world, obj, base, probes)
             kept = [x for x in d if x[0] not in shaky]
             C["ill_conditioned_skips"] += len(d) - len(kept)
             d = kept
@@ -667,6 +776,11 @@ def execute(spec, world):
                 PROP, "observable-changed", "after %s (%s), %s: %s" % (
                     qname, outcome, d[0][0], d[0][1]), si, cls=cls, op=qname, obs=d[0][0]))
             break
+        if strict and moves_the_shape(world, obj, st):
+            # geometry restored bit for bit, other stored state only to the last digit:
+            # allowed for an operation that moves the shape and moves it back
+            C["strict_differences_excused_for_movers"] += 1
+            strict = None
         if strict:
             res["violations"].append(violation(
                 PROP, "observable-changed", "after %s (%s) the defining geometry is bit-for-bit "
@@ -694,6 +808,9 @@ def execute(spec, world):
                     # inner shape must not itself perturb the object under test
                     why = observe._cmp_value(st["name"], _canon_seeded(world, value),
                                              _canon_seeded(world, value2), ctx)
+                    if why and _excused(world, obj, base, probes, st, why):
+                        C["ill_conditioned_skips"] += 1
+                        why = None
                     if why:
                         res["violations"].append(violation(
                             PROP, "repeat-differs", "%s returned a different answer when "
@@ -744,6 +861,9 @@ def execute(spec, world):
                     ctx.nbase = 0
                     why = observe._cmp_value(st["name"], _canon_seeded(world, value),
                                              _canon_seeded(world, value3), ctx)
+                    if why and _excused(world, obj, base, probes, st, why):
+                        C["ill_conditioned_skips"] += 1
+                        why = None
                     if why:
                         res["violations"].append(violation(
                             PROP, "history-dependent-answer", "%s answered differently from a "
